@@ -52,7 +52,7 @@ func oneFilter(text string) (substitution.FieldFilter, string) {
 	}
 	var ops []substitution.SubstitutionOp
 	var err error
-	fatalMsg = ""
+	setFatal("")
 	msg := hx.Catch(func() { ops, err = substitution.ParseSubstitution("${f|"+text+"}", nil, theLogger.Desugar()) })
 	switch {
 	case msg != "":
@@ -415,6 +415,34 @@ func execModel(which int, cs hx.Sx) hx.Sx {
 		ev := &pipeline.Event{Root: root}
 		msg := hx.Catch(func() { p.Do(ev) })
 		return hx.L(pathSx(cfg.ParseFieldSelector(target)), hx.L(fps...), outTree(msg, root))
+
+	case 41: // modify Do on ONE instance over several events (the instance reuses p.buf / p.fieldBuf)
+		skip, target, ops := hx.Truth(it[0]), hx.Str(it[1]), hx.Items(it[2])
+		m := map[string]string{target: modifyText(ops)}
+		if skip {
+			m["_skip_empty"] = "true"
+		}
+		cfgJSON, _ := json.Marshal(m)
+		p, e := newInstance("modify", cfgJSON, settingsOf([3]int{}), &nopCtl{}, 0)
+		if e != "" {
+			return badCfg(e)
+		}
+		var fps []hx.Sx
+		for _, op := range ops {
+			f := hx.Items(op)
+			if hx.Int(f[0]) == 1 {
+				fps = append(fps, pathSx(cfg.ParseFieldSelector(hx.Str(f[1]))))
+			}
+		}
+		var outs []hx.Sx
+		for _, t := range hx.Items(it[3]) {
+			root := rootOf(t)
+			ev := &pipeline.Event{Root: root}
+			msg := hx.Catch(func() { p.Do(ev) })
+			outs = append(outs, outTree(msg, root))
+			insaneJSON.Release(root)
+		}
+		return hx.L(pathSx(cfg.ParseFieldSelector(target)), hx.L(fps...), hx.L(outs...))
 	}
 	panic("c13: unknown which")
 }
@@ -861,37 +889,57 @@ func genModels(c *hmain.Ctx) {
 		}
 		changed("json_extract_do", hx.L(dit...), c.Do("json-extract-do", 38, hx.L(hx.S(hx.Pick(r, cfg38)), hx.L(dit...)), true))
 		// modify without regexp filters
-		var ops []hx.Sx
-		// ParseSubstitution looks for the first '|' in the whole remaining text: a field op without
-		// filters followed by one with filters makes Start panic (a config-time crash, outside C13's
-		// accepted configurations): once an op has no filter the later ones get none either
-		noMoreFilters := false
-		for k := r.Range(1, 3); k > 0; k-- {
-			if r.Chance(1, 3) {
-				ops = append(ops, hx.L(hx.I(0), hx.S(hx.Pick(r, []string{"value is ", " - ", ".", "x"}))))
-				continue
-			}
-			var fl []hx.Sx
-			nf := r.Intn(3)
-			if noMoreFilters {
-				nf = 0
-			}
-			if nf == 0 {
-				noMoreFilters = true
-			}
-			for q := nf; q > 0; q-- {
-				switch r.Intn(3) {
-				case 0:
-					fl = append(fl, hx.L(hx.I(0), hx.Bool(r.Bool()), hx.I(r.Range(1, 8))))
-				case 1:
-					fl = append(fl, hx.L(hx.I(1), hx.I(r.Intn(3)), hx.S(hx.Pick(r, []string{"{", "}", "a", "xy", " "}))))
-				default:
-					fl = append(fl, hx.L(hx.I(2), hx.I(r.Intn(3)), hx.S(hx.Pick(r, []string{" ", "xz", "\n", "{}"}))))
-				}
-			}
-			ops = append(ops, hx.L(hx.I(1), hx.S(hx.Pick(r, []string{"message", "log", "a.b", "a", "level", "items.0", "nope"})), hx.L(fl...)))
-		}
+		ops := modifyOps(r)
 		target := hx.Pick(r, []string{"new", "message", "a.c", "a.b.c", "items.x", "level"})
 		changed("modify_do", t, c.Do("modify-do", 40, hx.L(hx.Bool(r.Chance(1, 3)), hx.S(target), hx.L(ops...), t), true))
+		// the same on ONE instance over 2..3 events, long values first (audit item 13): modify.Do reuses
+		// p.buf / p.fieldBuf; after cut("last") / trim the field buffer is a TAIL sub-slice with reduced capacity,
+		// which the next event starts from ([:0]). Exposes: a filter or Do that reads beyond the length it was
+		// given (stale bytes of the longer previous value), or indexes by the previous event's length.
+		if i%2 == 0 {
+			long := withField(withField(tg.focused(false), []string{"message"}, sxStr(strings.Repeat(hx.Pick(r, []string{"xz {a} ", "ab}{", "  x\n"}), r.Range(20, 200)))),
+				[]string{"a", "b"}, sxStr(strings.Repeat("{}xy", r.Range(1, 300))))
+			trees := []hx.Sx{long, t}
+			if r.Chance(1, 2) {
+				trees = append(trees, tg.focused(false))
+			}
+			o41 := c.Do("modify-seq-do", 41, hx.L(hx.Bool(r.Chance(1, 3)), hx.S(target), hx.L(modifyOps(r)...), hx.L(trees...)), true)
+			c.W.Count(fmt.Sprintf("modify_seq_events_%d", len(hx.Items(hx.Items(o41)[2]))))
+		}
 	}
+}
+
+// modifyOps: a substitution of 1..3 ops over the regexp-free filters
+func modifyOps(r *hx.Rng) []hx.Sx {
+	var ops []hx.Sx
+	// ParseSubstitution looks for the first '|' in the whole remaining text: a field op without
+	// filters followed by one with filters makes Start panic (a config-time crash, outside C13's
+	// accepted configurations): once an op has no filter the later ones get none either
+	noMoreFilters := false
+	for k := r.Range(1, 3); k > 0; k-- {
+		if r.Chance(1, 3) {
+			ops = append(ops, hx.L(hx.I(0), hx.S(hx.Pick(r, []string{"value is ", " - ", ".", "x"}))))
+			continue
+		}
+		var fl []hx.Sx
+		nf := r.Intn(3)
+		if noMoreFilters {
+			nf = 0
+		}
+		if nf == 0 {
+			noMoreFilters = true
+		}
+		for q := nf; q > 0; q-- {
+			switch r.Intn(3) {
+			case 0:
+				fl = append(fl, hx.L(hx.I(0), hx.Bool(r.Bool()), hx.I(r.Range(1, 8))))
+			case 1:
+				fl = append(fl, hx.L(hx.I(1), hx.I(r.Intn(3)), hx.S(hx.Pick(r, []string{"{", "}", "a", "xy", " "}))))
+			default:
+				fl = append(fl, hx.L(hx.I(2), hx.I(r.Intn(3)), hx.S(hx.Pick(r, []string{" ", "xz", "\n", "{}"}))))
+			}
+		}
+		ops = append(ops, hx.L(hx.I(1), hx.S(hx.Pick(r, []string{"message", "log", "a.b", "a", "level", "items.0", "nope"})), hx.L(fl...)))
+	}
+	return ops
 }
